@@ -167,4 +167,15 @@ type Plan struct {
 	// must recur.
 	Expect string `json:"expect,omitempty"`
 	Note   string `json:"note,omitempty"`
+	// History: the violation only shows when the runs From, From+Stride, ... Upto (generated from
+	// Seed) are executed in one process before this one, i.e. it depends on process-wide state
+	// production code kept from earlier simulated servers; replay regenerates that sequence
+	History *PlanHistory `json:"history,omitempty"`
+}
+
+// PlanHistory names the runs a worker process executed up to a run.
+type PlanHistory struct {
+	From   int `json:"from"`
+	Stride int `json:"stride"`
+	Upto   int `json:"upto"`
 }
